@@ -6,6 +6,7 @@ import (
 	"sort"
 
 	"github.com/influxdata/influxdb/query"
+	"github.com/influxdata/influxdb/tsdb"
 )
 
 // VerifRemoteGroup describes one remote shard group of a cluster shard mapping.
@@ -15,25 +16,57 @@ type VerifRemoteGroup struct {
 	Dirty    []uint64
 }
 
-// VerifRemoteGroups exposes the remote shard groups (node, shard ids, dirty set) of a
-// mapping returned by ClusterShardMapper.MapShards to the external verification harness.
-func VerifRemoteGroups(sg query.ShardGroup) []VerifRemoteGroup {
+// VerifSourceMapping describes what a cluster shard mapping holds for one source
+// (database, retention policy): the local shards and the remote shard groups, in the
+// order in which they were appended.
+type VerifSourceMapping struct {
+	Database, RetentionPolicy string
+	LocalSet                  bool
+	Local                     []uint64
+	Remote                    []VerifRemoteGroup
+}
+
+// VerifMapping exposes the per-source content of a mapping returned by
+// ClusterShardMapper.MapShards to the external verification harness.
+func VerifMapping(sg query.ShardGroup) []VerifSourceMapping {
 	a, ok := sg.(*ClusterShardMapping)
 	if !ok {
 		return nil
 	}
-	var out []VerifRemoteGroup
-	for _, groups := range a.RemoteShardMapping {
-		for _, g := range groups {
+	keys := map[Source]bool{}
+	for s := range a.LocalShardMapping.ShardMap {
+		keys[s] = true
+	}
+	for s := range a.RemoteShardMapping {
+		keys[s] = true
+	}
+	var out []VerifSourceMapping
+	for s := range keys {
+		m := VerifSourceMapping{Database: s.Database, RetentionPolicy: s.RetentionPolicy}
+		if l, ok := a.LocalShardMapping.ShardMap[s]; ok {
+			m.LocalSet = true
+			if shards, ok := l.(tsdb.Shards); ok {
+				for _, sh := range shards {
+					m.Local = append(m.Local, sh.ID())
+				}
+			}
+		}
+		for _, g := range a.RemoteShardMapping[s] {
 			vg := VerifRemoteGroup{NodeID: g.nodeID, ShardIDs: g.shards.shardIDs()}
 			g.dirty.Range(func(k, _ interface{}) bool {
 				vg.Dirty = append(vg.Dirty, k.(uint64))
 				return true
 			})
 			sort.Slice(vg.Dirty, func(i, j int) bool { return vg.Dirty[i] < vg.Dirty[j] })
-			out = append(out, vg)
+			m.Remote = append(m.Remote, vg)
 		}
+		out = append(out, m)
 	}
-	sort.Slice(out, func(i, j int) bool { return out[i].NodeID < out[j].NodeID })
+	sort.Slice(out, func(i, j int) bool {
+		if out[i].Database != out[j].Database {
+			return out[i].Database < out[j].Database
+		}
+		return out[i].RetentionPolicy < out[j].RetentionPolicy
+	})
 	return out
 }
